@@ -270,6 +270,18 @@ def register(reg):
         frame=[], props=("C07",), exc_props={"KeyError": ("C07", "C17"), "*": ("C07", "C17")},
         locals={"aux": ("obj", "SeqItem")},
         hints={
+            "list_mem[0]": [
+                ("every_list_entry_is_a_candidate",
+                 "forall(0, l - 1, lambda q: list_mem[q] == (q + 1) * params['uf'] + HP0(l - q - 1, cmem - 1, %s) + "
+                 "HP0(q, cmem, %s))" % (P0, P0))],
+            "jmin[0]": [
+                ("chosen_split_is_a_list_entry",
+                 "list_mem[jmin - 1] == jmin * params['uf'] + HP0(l - jmin, cmem - 1, %s) + HP0(jmin - 1, cmem, %s)"
+                 % (P0, P0)),
+                ("use", "HP0.upper", ["cmem", "l - jmin", "jmin - 1", "params['uf']", "params['ub']"]),
+                ("split_not_below_optimum", "list_mem[jmin - 1] >= HP0(l, cmem, %s)" % P0),
+                ("split_beats_single_slot", "list_mem[jmin - 1] < HP0(l, 1, %s)" % P0),
+                ("split_not_above_optimum", "list_mem[jmin - 1] <= HP0(l, cmem, %s)" % P0)],
             "list_mem[1]": [
                 ("every_list_entry_is_a_candidate",
                  "forall(0, l - 1, lambda q: list_mem[q] == (q + 1) * params['uf'] + H1(l - q - 1, cmem - 1, %s) + "
